@@ -178,6 +178,17 @@ def endFirstPass (s : St) (lastErr : Nat) : St × List Ev :=
     let (s, ev) := pushState { s with firstPass := false } .tf (.connErr lastErr)
     (s, ev ++ (s.subConns.filter (·.raw = .idle)).map (Ev.connect ·.id))
 
+/-- `sd.connectionFailedInFirstPass = true` -/
+def SC.markFailed (sd : SC) : SC := { sd with failed := true }
+
+/-- `sd, ok := b.subConns.Get(curAddr); if !ok { sd = b.newSCData(curAddr); b.subConns.Set(curAddr, sd) }` -/
+def ensureSC (s : St) (cur : Addr) : St × SC × List Ev :=
+  match getSC s cur with
+  | some sd => (s, sd, [])
+  | none =>
+    let sd : SC := { id := s.scSerial + 1, addr := cur }
+    (setSC { s with scSerial := s.scSerial + 1 } sd, sd, [Ev.newSc sd.id cur])
+
 /-- `requestConnectionLocked`; `fuel` bounds the `for valid := true; valid; valid = increment()` loop -/
 def requestLoop : Nat → St → List Ev → St × List Ev
   | 0, s, ev => (s, ev)
@@ -185,28 +196,15 @@ def requestLoop : Nat → St → List Ev → St × List Ev
     match currentAddress s with
     | none => (s, ev)        -- not reachable inside the loop
     | some cur =>
-      -- `sd, ok := b.subConns.Get(curAddr); if !ok { sd = b.newSCData(curAddr); b.subConns.Set(curAddr, sd) }`
-      let found : Option SC := getSC s cur
-      let sd : SC := match found with
-        | some sd => sd
-        | none => { id := s.scSerial + 1, addr := cur }
-      let s : St := match found with
-        | some _ => s
-        | none => setSC { s with scSerial := s.scSerial + 1 } sd
-      let ev : List Ev := match found with
-        | some _ => ev
-        | none => ev ++ [Ev.newSc sd.id cur]
-      match sd.raw with
-      | .idle => (schedule { s with passLog := s.passLog ++ [s.idx] }, ev ++ [Ev.connect sd.id])
+      let r := ensureSC s cur
+      match r.2.1.raw with
+      | .idle => (schedule { r.1 with passLog := r.1.passLog ++ [r.1.idx] }, ev ++ r.2.2 ++ [Ev.connect r.2.1.id])
       | .tf =>
-        let s := setSC s { sd with failed := true }
-        let (s, valid) := increment s
-        if valid then requestLoop fuel s ev
-        else
-          let (s, ev2) := endFirstPass s sd.lastErr
-          (s, ev ++ ev2)
-      | .connecting => (schedule s, ev)
-      | _ => (s, ev)         -- "SubConn with unexpected state … present in SubConns map."
+        let s2 := increment (setSC r.1 r.2.1.markFailed)
+        if s2.2 then requestLoop fuel s2.1 (ev ++ r.2.2)
+        else ((endFirstPass s2.1 r.2.1.lastErr).1, ev ++ r.2.2 ++ (endFirstPass s2.1 r.2.1.lastErr).2)
+      | .connecting => (schedule r.1, ev ++ r.2.2)
+      | _ => (r.1, ev ++ r.2.2)         -- "SubConn with unexpected state … present in SubConns map."
 
 def requestConnection (s : St) : St × List Ev :=
   if !isValid s then (s, []) else requestLoop (s.addrs.length + 1) s []
@@ -228,40 +226,55 @@ def shutdownRemaining (s : St) (sel : SC) : St × List Ev :=
 def resolverError (s : St) : St × List Ev :=
   if s.state ≠ .tf ∧ s.addrs.length > 0 then (s, []) else pushState s .tf .resErr
 
-/-- `UpdateClientConnState`; `newAddrs` = the flattened (and shuffled) list before de-dup/interleave.
-    Returns also whether ErrBadResolverState is returned. -/
-def updateCCS (s : St) (health : Bool) (raw : List Addr) : St × List Ev × Bool :=
-  let s := cancelTimer s
-  if raw.isEmpty then
-    let (s, ev1) := closeSubConns s
-    let s := { s with addrs := [], idx := 0, sticky := false, passLog := [], passSerial := s.passSerial + 1 }
-    let (s, ev2) := resolverError s
-    (s, ev1 ++ ev2, true)
+/-- `UpdateClientConnState` with no addresses: "Cleanup state pertaining to the previous resolver state.
+    Treat an empty address list like an error by calling b.ResolverError." -/
+def updateEmpty (s : St) : St × List Ev :=
+  let r1 := closeSubConns s
+  let r2 := resolverError { r1.1 with addrs := [], idx := 0, sticky := false, passLog := [], passSerial := s.passSerial + 1 }
+  (r2.1, r1.2 ++ r2.2)
+
+/-- `prevAddr` when `isPrevRawConnectivityStateReady`: the current address, if its SubConn's raw state is READY -/
+def prevReadyAddr (s : St) : Option Addr :=
+  match currentAddress s with
+  | some a => if (getSC s a).any (·.raw = .ready) then some a else none
+  | none => none
+
+/-- `reconcileSubConnsLocked` -/
+def reconcile (s : St) (newAddrs : List Addr) : St × List Ev :=
+  ({ s with subConns := s.subConns.filter fun sc => newAddrs.contains sc.addr },
+   (s.subConns.filter fun sc => !(newAddrs.contains sc.addr)).map (Ev.sd ·.id))
+
+/-- the `if isPrevRawConnectivityStateReady || b.state == Connecting || prevAddrsCount == 0 {…} else if
+    b.state == TransientFailure {…}` tail -/
+def updateTail (s : St) (isPrevReady : Bool) (prevCount : Nat) : St × List Ev :=
+  if isPrevReady = true ∨ s.state = .connecting ∨ prevCount = 0 then
+    let r1 := forcePush s .connecting .queue
+    let r2 := startFirstPass r1.1
+    (r2.1, r1.2 ++ r2.2)
+  else if s.state = .tf then startFirstPass s
+  else (s, [])
+
+/-- `UpdateClientConnState` with addresses; `raw` = the flattened (and shuffled) list -/
+def updateNonEmpty (s : St) (health : Bool) (raw : List Addr) : St × List Ev :=
+  let s0 : St := { s with health := health }
+  let newAddrs := preprocess raw
+  let prev := prevReadyAddr s0
+  let prevCount := s0.addrs.length
+  let s2 : St := { s0 with addrs := newAddrs, idx := 0, passLog := [], passSerial := s0.passSerial + 1 }
+  let k : St × Bool := match prev with
+    | some a => seekTo s2 a
+    | none => (s2, false)
+  -- "If the previous ready SubConn exists in new address list, keep this connection"
+  if k.2 then (k.1, [])
   else
-    let s := { s with health := health }
-    let newAddrs := preprocess raw
-    let prevAddr := currentAddress s
-    let prevCount := s.addrs.length
-    let isPrevReady : Bool := match prevAddr with
-      | some a => (getSC s a).any (·.raw = .ready)
-      | none => false
-    let s := { s with addrs := newAddrs, idx := 0, passLog := [], passSerial := s.passSerial + 1 }
-    let kept := match prevAddr with
-      | some a => if isPrevReady then (seekTo s a) else (s, false)
-      | none => (s, false)
-    if kept.2 then (kept.1, [], false) else
-    -- reconcileSubConnsLocked
-    let gone := s.subConns.filter fun sc => !(newAddrs.contains sc.addr)
-    let s := { s with subConns := s.subConns.filter fun sc => newAddrs.contains sc.addr }
-    let ev1 := gone.map (Ev.sd ·.id)
-    if isPrevReady = true ∨ s.state = .connecting ∨ prevCount = 0 then
-      let (s, ev2) := forcePush s .connecting .queue
-      let (s, ev3) := startFirstPass s
-      (s, ev1 ++ ev2 ++ ev3, false)
-    else if s.state = .tf then
-      let (s, ev3) := startFirstPass s
-      (s, ev1 ++ ev3, false)
-    else (s, ev1, false)
+    let r1 := reconcile s2 newAddrs
+    let r2 := updateTail r1.1 prev.isSome prevCount
+    (r2.1, r1.2 ++ r2.2)
+
+/-- `UpdateClientConnState`. Returns also whether ErrBadResolverState is returned. -/
+def updateCCS (s : St) (health : Bool) (raw : List Addr) : St × List Ev × Bool :=
+  if raw.isEmpty then ((updateEmpty (cancelTimer s)).1, (updateEmpty (cancelTimer s)).2, true)
+  else ((updateNonEmpty (cancelTimer s) health raw).1, (updateNonEmpty (cancelTimer s) health raw).2, false)
 
 /-- `ExitIdle` -/
 def exitIdle (s : St) : St × List Ev :=
@@ -283,62 +296,68 @@ def timerFire (s : St) : St × List Ev :=
   let (s, ok) := increment s
   if ok then requestConnection s else (s, [])
 
+/-- `updateSubConnState`, the `newState == Ready` branch (`sd` is already stored with its new raw state) -/
+def scReady (s : St) (sd : SC) : St × List Ev :=
+  let r1 := shutdownRemaining s sd
+  let r2 := seekTo { r1.1 with sticky := false } sd.addr
+  if !r2.2 then (r2.1, r1.2)
+  else if !r2.1.health then
+    let r3 := pushState (setSC r2.1 { sd with eff := .ready }) .ready (.ready sd.id)
+    (r3.1, r1.2 ++ r3.2)
+  else
+    let r3 := pushState (setSC r2.1 { sd with eff := .connecting, healthReg := true }) .connecting .queue
+    (r3.1, r1.2 ++ r3.2 ++ [Ev.hl sd.id])
+
+/-- … the "READY SubConn failed / connected and dropped" branch: back to IDLE -/
+def scToIdle (s : St) (sd : SC) (new : ConnState) : St × List Ev :=
+  let r1 := shutdownRemaining s sd
+  -- (ghost) a CONNECTING→IDLE SubConn is "a successful connection" for the code (issue 7862)
+  let s2 : St := { setSC r1.1 { sd with eff := new } with idx := 0, passLog := [], passSerial := r1.1.passSerial + 1, sticky := false }
+  let r3 := pushState s2 .idle (.idle false)
+  (r3.1, r1.2 ++ r3.2)
+
+/-- … `if b.firstPass { switch newState … }` -/
+def scFirstPass (s : St) (sd : SC) (new : ConnState) (err : Nat) : St × List Ev :=
+  match new with
+  | .connecting =>
+    if sd.eff ≠ .tf then pushState (setSC s { sd with eff := .connecting }) .connecting .queue
+    else (s, [])
+  | .tf =>
+    let s1 := setSC s { sd with lastErr := err, eff := .tf }
+    if currentAddress s1 = some sd.addr then
+      let r := increment (cancelTimer s1)
+      if r.2 then requestConnection r.1 else endFirstPass r.1 err
+    else endFirstPass s1 err
+  | _ => (s, [])
+
+/-- … after the first pass: "keep re-connecting failing SubConns" -/
+def scLater (s : St) (sd : SC) (new : ConnState) (err : Nat) : St × List Ev :=
+  match new with
+  | .tf =>
+    let n := s.subConns.length
+    let s1 : St := setSC { s with numTF := (s.numTF + 1) % n } { sd with lastErr := err }
+    if s1.numTF % n = 0 then pushState s1 .tf (.connErr err) else (s1, [])
+  | .idle => (s, [Ev.connect sd.id])
+  | _ => (s, [])
+
+/-- the scData as stored right after `sd.rawConnectivityState = newState.ConnectivityState`
+    (the fake channel drops a health listener when the SubConn leaves READY) -/
+def SC.withRaw (sd : SC) (new : ConnState) : SC :=
+  { sd with raw := new, healthReg := sd.healthReg && new = .ready, failed := sd.failed || new = .tf }
+
 /-- `updateSubConnState(sd, {new, err})` for the SubConn `id` of the fake channel -/
 def scState (s : St) (id : Nat) (new : ConnState) (err : Nat) : St × List Ev :=
   match activeSC s id with
   | none => (s, [])                       -- obsolete SubConn
   | some sd0 =>
-    let old := sd0.raw
-    -- (the fake channel drops a health listener when the SubConn leaves READY)
-    let sd := { sd0 with raw := new, healthReg := sd0.healthReg && new = .ready }
-    let s := setSC s sd
-    if new = .shutdown then (setSC s { sd with eff := .shutdown }, [])
+    if new = .shutdown then (setSC s { sd0 with raw := .shutdown, eff := .shutdown, healthReg := false }, [])
     else
-    let sd := if new = .tf then { sd with failed := true } else sd
+    let sd := sd0.withRaw new
     let s := setSC s sd
-    if new = .ready then
-      let (s, ev1) := shutdownRemaining s sd
-      let s := { s with sticky := false }
-      let (s, found) := seekTo s sd.addr
-      if !found then (s, ev1)
-      else if !s.health then
-        let sd := { sd with eff := .ready }
-        let (s, ev2) := pushState (setSC s sd) .ready (.ready sd.id)
-        (s, ev1 ++ ev2)
-      else
-        let sd := { sd with eff := .connecting, healthReg := true }
-        let (s, ev2) := pushState (setSC s sd) .connecting .queue
-        (s, ev1 ++ ev2 ++ [.hl sd.id])
-    else if old = .ready ∨ (old = .connecting ∧ new = .idle) then
-      let (s, ev1) := shutdownRemaining s sd
-      let sd := { sd with eff := new }
-      -- (ghost) a CONNECTING→IDLE SubConn is "a successful connection" for the code (issue 7862)
-      let s := { setSC s sd with idx := 0, passLog := [], passSerial := s.passSerial + 1, sticky := false }
-      let (s, ev2) := pushState s .idle (.idle false)
-      (s, ev1 ++ ev2)
-    else if s.firstPass then
-      match new with
-      | .connecting =>
-        if sd.eff ≠ .tf then pushState (setSC s { sd with eff := .connecting }) .connecting .queue
-        else (s, [])
-      | .tf =>
-        let sd := { sd with lastErr := err, eff := .tf }
-        let s := setSC s sd
-        if currentAddress s = some sd.addr then
-          let s := cancelTimer s
-          let (s, ok) := increment s
-          if ok then requestConnection s else endFirstPass s err
-        else endFirstPass s err
-      | _ => (s, [])
-    else
-      match new with
-      | .tf =>
-        let n := s.subConns.length
-        let s := { s with numTF := (s.numTF + 1) % n }
-        let s := setSC s { sd with lastErr := err }
-        if s.numTF % n = 0 then pushState s .tf (.connErr err) else (s, [])
-      | .idle => (s, [.connect sd.id])
-      | _ => (s, [])
+    if new = .ready then scReady s sd
+    else if sd0.raw = .ready ∨ (sd0.raw = .connecting ∧ new = .idle) then scToIdle s sd new
+    else if s.firstPass then scFirstPass s sd new err
+    else scLater s sd new err
 
 /-- `updateSubConnHealthState` -/
 def healthState (s : St) (id : Nat) (st : ConnState) (err : Nat) : St × List Ev :=
